@@ -10,7 +10,8 @@
  * Handles: table slot 1..n -> struct node *.  A new node takes the smallest
  * unused slot; the nodes of a clone are entered in pre-order of the copy.
  * After each call all four links of every live node are logged as handles
- * (0 = null, -1 = a pointer that is no live handle).
+ * (0 = null, -1 = a pointer that is no live handle).  A step given with
+ * q=1 is executed without logging the state (prefix of a replayed behaviour).
  */
 #undef malloc
 #undef free
@@ -186,14 +187,26 @@ static void drv_reset(void)
 	nmax = 0;
 }
 
+static int quiet;   /* step given with q=1: execute, log nothing but the step itself */
+
 static void emit(struct cmd *c, int isnum, long long num, const char *str,
                  const long long *seq, size_t seqlen)
 {
 	int i, j, k;
 	drv_begin(c);
+	if (quiet) {
+		drv_dbg();
+		drv_end();
+		for (i = 1; i <= nmax; i++) {
+			if (tabstate[i] == 2) { tabstate[i] = 0; tab[i] = 0; }
+		}
+		nfreed = 0;
+		return;
+	}
 	if (seq) j_ints("ret", seq, seqlen);
 	else if (isnum) j_int("ret", num);
 	else j_str("ret", str);
+	j_int("skip", (!seq && !isnum && str && !strcmp(str, "skipped")) ? 1 : 0);
 	/* released handles, ascending (duplicates stay) */
 	for (i = 0; i < nfreed; i++) {
 		for (j = i + 1; j < nfreed; j++) {
@@ -285,11 +298,88 @@ static void scramble(struct mpt_node *n, int *budget)
 	}
 }
 
+/* ---------- caller obligations (steps given with g=1) ----------
+ * Evaluated on the real structure before the call; a call that would break
+ * them is not made and recorded as "skipped".  The trace specification
+ * checks each of these decisions against its own guard of the call.
+ */
+static int isolated(const struct mpt_node *n)
+{
+	return !n->next && !n->prev && !n->parent;
+}
+static int below_or_same(const struct mpt_node *x, const struct mpt_node *top)
+{
+	int k;
+	for (k = 0; x && k <= MAXN; k++, x = x->parent) {
+		if (x == top) return 1;
+	}
+	return 0;
+}
+static const struct mpt_node *list_head_of_root(const struct mpt_node *x)
+{
+	int k;
+	for (k = 0; x->parent && k <= MAXN; k++) x = x->parent;
+	for (k = 0; x->prev && k <= MAXN; k++) x = x->prev;
+	return x;
+}
+static int count_tree(const struct mpt_node *n, int budget);
+static int count_list(const struct mpt_node *n, int budget)
+{
+	int cnt = 0;
+	for (; n && cnt <= budget; n = n->next) cnt += count_tree(n, budget - cnt);
+	return cnt;
+}
+static int count_tree(const struct mpt_node *n, int budget)
+{
+	return 1 + count_list(n->children, budget - 1);
+}
+static int free_slots(void)
+{
+	int i, cnt = 0;
+	for (i = 1; i <= nmax; i++) if (!tabstate[i]) cnt++;
+	return cnt;
+}
+static int can_attach(const struct mpt_node *n, const struct mpt_node *target)
+{
+	return n && target && isolated(n) && !below_or_same(target, n);
+}
+static int guard_ok(const struct cmd *c)
+{
+	const char *a = c->action;
+	long long pn = drv_int(c, "p", 0);
+	struct mpt_node *n = ptr_of(drv_int(c, "n", 0)), *p = ptr_of(pn);
+
+	if (!strcmp(a, "new")) return free_slots() > 0;
+	if (!strcmp(a, "ginsert") || !strcmp(a, "ninsert")) return can_attach(n, p);
+	if (!strcmp(a, "gadd") || !strcmp(a, "nadd")) return can_attach(n, ptr_of(drv_int(c, "first", 0)));
+	if (!strcmp(a, "after") || !strcmp(a, "before")) {
+		return n && isolated(n) && (pn == 0 || p == n || can_attach(n, p));
+	}
+	if (!strcmp(a, "clonenode")) return n && free_slots() >= 1;
+	if (!strcmp(a, "clonetree")) return n && free_slots() >= count_tree(n, MAXN);
+	if (!strcmp(a, "clonelist")) return n && free_slots() >= count_list(n, MAXN);
+	if (!strcmp(a, "move")) {
+		struct mpt_node *s = ptr_of(drv_int(c, "s", 0)), *d = ptr_of(drv_int(c, "d", 0));
+		return s && d && list_head_of_root(s) != list_head_of_root(d);
+	}
+	if (!strcmp(a, "swap")) {
+		struct mpt_node *x = ptr_of(drv_int(c, "a", 0)), *y = ptr_of(drv_int(c, "b", 0));
+		return x && y && (x == y || (!below_or_same(x, y) && !below_or_same(y, x)));
+	}
+	if (!strcmp(a, "find")) return p != 0;
+	return n != 0;
+}
+
 static void drv_step(struct cmd *c)
 {
 	const char *a = c->action;
 	struct mpt_node *n = ptr_of(drv_int(c, "n", 0));
 
+	quiet = (int) drv_int(c, "q", 0);
+	if (drv_int(c, "g", 0) && strcmp(a, "init") && !guard_ok(c)) {
+		emit(c, 0, 0, "skipped", 0, 0);
+		return;
+	}
 	if (!strcmp(a, "init")) {
 		drv_reset();
 		nmax = (int) drv_int(c, "n", 4);
